@@ -244,6 +244,18 @@ def _hp_mutation(ck: Check, repo: Repo) -> None:
           detail=(f"`{short(projected[0], 80)}` writes the new value into one parameter group only: an optimizer over several networks (PPO: actor and critic groups) "
                   "keeps stepping its other groups with the old learning rate") if projected else "neither reinit_opt(...) nor an in-place update of the parameter groups found",
           construct="reinit_opt call in rl_hyperparam_mutation")
+    # ... and nothing afterwards restores the old optimizer's state: Optimizer.load_state_dict also restores the param_groups, i.e. the OLD learning rate
+    reloads = []
+    for c in calls_in(fn.node, nested=True):
+        if last_attr(c) == "load_state_dict":
+            n0 = cfg.node_of(c)
+            if n0 is not None and any(cfg.node_of(r) is not None and n0.id in cfg.reachable_from(cfg.node_of(r)) for r in reinits):
+                reloads.append(c)
+    ck.ob("C06.4", fn, reloads[0] if reloads else fn.node, not reloads,
+          "after the optimizers were re-created with the mutated learning rate no saved optimizer state is loaded back into them",
+          detail=f"`{short(reloads[0], 70)}` runs after reinit_opt: torch's Optimizer.load_state_dict restores the param_groups of the saved state, including the old `lr`, so the agent "
+                 "reports the mutated value while every optimizer group keeps stepping with the old one" if reloads else "",
+          construct="rl_hyperparam_mutation: state loaded back after re-creation")
     for c in reinits:
         n = cfg.node_of(c)
         gs = cfg.guards_at(n)
@@ -416,6 +428,7 @@ def _reinit_opt(ck: Check, repo: Repo) -> None:
 _MF = "agilerl/hpo/mutation.py"
 _RF = "agilerl/algorithms/core/registry.py"
 VARIANTS = [
+    ("lr-mutation-reloads-old-optimizer-state", _MF, "                    # Reinitialise every optimizer that uses the new learning rate\n                    self.reinit_opt(individual, optimizer=opt_config)", "                    old_state = getattr(individual, opt_config.name).state_dict()\n                    self.reinit_opt(individual, optimizer=opt_config)\n                    getattr(individual, opt_config.name).load_state_dict(old_state)", "fire", "C06.4"),
     ("wrapper-ignores-explicit-lr-name", "agilerl/algorithms/core/wrappers.py", "            self.lr_name = (\n                lr_name\n                if lr_name is not None\n                else self._infer_lr_name(parent_container)\n            )", "            self.lr_name = self._infer_lr_name(parent_container)", "fire", "C06.6"),
     ("ddpg-critic-optimizer-lr-name-inferred", "agilerl/algorithms/ddpg.py", "            lr=lr_critic,\n            lr_name=\"lr_critic\",\n", "            lr=lr_critic,\n", "fire", "C06.6"),
     ("lr-in-place-first-group-only", _MF, "                    # Reinitialise every optimizer that uses the new learning rate\n                    self.reinit_opt(individual, optimizer=opt_config)", "                    opt = getattr(individual, opt_config.name)\n                    opt.optimizer.param_groups[0][\"lr\"] = new_value\n                    opt.lr = new_value", "fire", "C06.4"),
